@@ -1248,6 +1248,8 @@ fn tyvar_of_iface_method(
             .subst(&subst)
             .instantiate(ctx, polyvar_scope, node);
     }
+    // the interface's own method types are otherwise only computed along with its implementations
+    generate_constraints_iface_def(ctx, iface_def);
     TypeVar::from_node(ctx, iface_def.methods[method].name.node())
         .instantiate(ctx, polyvar_scope, node.clone())
         .instantiate_iface_output_types_without_impl(ctx, node.clone())
